@@ -598,8 +598,8 @@ func (x *exec) limitCase(t template, n int) {
 		}
 	}
 	c.NonTrivial(vp.Hash("limits", x.variant, t.name, itoa(n)))
-	if c.WantSample() && n == 300 {
-		c.Sample(map[string]interface{}{"stage": "limits", "template": t.name, "N": n, "input": short, "outcome": res.kind, "value": abbreviate(res.rets), "error": res.errMsg})
+	if x.wantSample() && n >= 200 {
+		x.sample(map[string]interface{}{"stage": "limits", "template": t.name, "N": n, "input": short, "outcome": res.kind, "value": abbreviate(res.rets), "error": res.errMsg})
 	}
 }
 
